@@ -43,6 +43,12 @@ func main() {
 		if err != nil {
 			fatal(err)
 		}
+		mapFields = map[string]bool{}
+		for _, e := range ents {
+			if name := e.Name(); strings.HasSuffix(name, ".go") && !strings.HasSuffix(name, "_test.go") {
+				collectMapFields(filepath.Join(dir, name))
+			}
+		}
 		for _, e := range ents {
 			name := e.Name()
 			if e.IsDir() || !strings.HasSuffix(name, ".go") {
@@ -63,6 +69,126 @@ func main() {
 		}
 	}
 	fmt.Printf("simify: rewrote %d files\n", n)
+}
+
+// mapFields: names of struct fields declared with a map type in the package being rewritten.
+var mapFields map[string]bool
+
+func collectMapFields(path string) {
+	fset := token.NewFileSet()
+	f, err := parser.ParseFile(fset, path, nil, 0)
+	if err != nil {
+		return
+	}
+	ast.Inspect(f, func(n ast.Node) bool {
+		st, ok := n.(*ast.StructType)
+		if !ok {
+			return true
+		}
+		for _, fld := range st.Fields.List {
+			if _, isMap := fld.Type.(*ast.MapType); isMap {
+				for _, nm := range fld.Names {
+					mapFields[nm.Name] = true
+				}
+			}
+		}
+		return true
+	})
+}
+
+// isMapExpr: e is x.f with f a map field, or such an expression indexed once (map of maps).
+func isMapExpr(e ast.Expr) bool {
+	switch x := e.(type) {
+	case *ast.SelectorExpr:
+		return mapFields[x.Sel.Name]
+	case *ast.IndexExpr:
+		if sel, ok := x.X.(*ast.SelectorExpr); ok {
+			return mapFields[sel.Sel.Name]
+		}
+	case *ast.ParenExpr:
+		return isMapExpr(x.X)
+	}
+	return false
+}
+
+type mapAcc struct {
+	expr  ast.Expr
+	write bool
+	pos   token.Pos
+}
+
+// headerExprs returns the expressions evaluated by the statement itself (not by nested blocks).
+func headerNodes(s ast.Stmt) []ast.Node {
+	switch x := s.(type) {
+	case *ast.IfStmt:
+		var ns []ast.Node
+		if x.Init != nil {
+			ns = append(ns, x.Init)
+		}
+		return append(ns, x.Cond)
+	case *ast.ForStmt:
+		var ns []ast.Node
+		if x.Init != nil {
+			ns = append(ns, x.Init)
+		}
+		if x.Cond != nil {
+			ns = append(ns, x.Cond)
+		}
+		return ns
+	case *ast.RangeStmt:
+		return []ast.Node{x.X}
+	case *ast.SwitchStmt:
+		var ns []ast.Node
+		if x.Init != nil {
+			ns = append(ns, x.Init)
+		}
+		if x.Tag != nil {
+			ns = append(ns, x.Tag)
+		}
+		return ns
+	case *ast.ExprStmt, *ast.AssignStmt, *ast.SendStmt, *ast.DeclStmt, *ast.IncDecStmt, *ast.ReturnStmt, *ast.DeferStmt:
+		return []ast.Node{s}
+	}
+	return nil
+}
+
+func collectMapAccesses(s ast.Stmt) []mapAcc {
+	var out []mapAcc
+	writes := map[ast.Expr]bool{}
+	mark := func(e ast.Expr) {
+		if ix, ok := e.(*ast.IndexExpr); ok {
+			writes[ix] = true
+		}
+	}
+	for _, n := range headerNodes(s) {
+		switch x := n.(type) {
+		case *ast.AssignStmt:
+			for _, l := range x.Lhs {
+				mark(l)
+			}
+		case *ast.IncDecStmt:
+			mark(x.X)
+		}
+		if rs, ok := s.(*ast.RangeStmt); ok && isMapExpr(rs.X) {
+			out = append(out, mapAcc{expr: rs.X, write: false, pos: rs.Pos()})
+		}
+		ast.Inspect(n, func(m ast.Node) bool {
+			switch y := m.(type) {
+			case *ast.FuncLit:
+				return false
+			case *ast.IndexExpr:
+				if isMapExpr(y.X) {
+					out = append(out, mapAcc{expr: y.X, write: writes[y], pos: y.Pos()})
+				}
+			case *ast.CallExpr:
+				if id, ok := y.Fun.(*ast.Ident); ok && id.Name == "delete" && len(y.Args) == 2 && isMapExpr(y.Args[0]) {
+					out = append(out, mapAcc{expr: y.Args[0], write: true, pos: y.Pos()})
+				}
+			}
+			return true
+		})
+	}
+	return out
 }
 
 func fatal(err error) {
@@ -124,7 +250,7 @@ func rewriteFile(path, pkg string) error {
 		case *ast.CommClause:
 			x.Body = rw.stmts(x.Body)
 			if x.Comm != nil { // not the default clause
-				x.Body = append([]ast.Stmt{rw.yieldStmt("select")}, x.Body...)
+				x.Body = append([]ast.Stmt{rw.yieldStmt("select"), rw.callStmt("ChanAcquire")}, x.Body...)
 			}
 		}
 		return true
@@ -229,6 +355,18 @@ func (rw *rewriter) pos(n ast.Node) string {
 func (rw *rewriter) stmts(list []ast.Stmt) []ast.Stmt {
 	var out []ast.Stmt
 	for _, s := range list {
+		for _, a := range collectMapAccesses(s) {
+			rw.usedRT = true
+			w := "false"
+			if a.write {
+				w = "true"
+			}
+			p := rw.fset.Position(a.pos)
+			out = append(out, &ast.ExprStmt{X: &ast.CallExpr{
+				Fun: &ast.SelectorExpr{X: ast.NewIdent("simrt"), Sel: ast.NewIdent("MapAccess")},
+				Args: []ast.Expr{a.expr, ast.NewIdent(w), &ast.BasicLit{Kind: token.STRING, Value: strconv.Quote(fmt.Sprintf("%s:%d", rw.relname, p.Line))}},
+			}})
+		}
 		switch x := s.(type) {
 		case *ast.GoStmt:
 			// defer simrt.GoStart()() as first statement of the goroutine body
@@ -248,9 +386,11 @@ func (rw *rewriter) stmts(list []ast.Stmt) []ast.Stmt {
 			}
 			out = append(out, rw.callStmt("PreGo"), x, rw.callStmt("PostGo"))
 		case *ast.ExprStmt, *ast.AssignStmt, *ast.SendStmt, *ast.DeclStmt, *ast.IncDecStmt:
-			out = append(out, s)
 			if hasChanOp(s) {
-				out = append(out, rw.yieldStmt("chan"))
+				// happens-before edges for the map monitor: everything before a send is visible after a receive
+				out = append(out, rw.callStmt("ChanRelease"), s, rw.yieldStmt("chan"), rw.callStmt("ChanAcquire"))
+			} else {
+				out = append(out, s)
 			}
 		default:
 			out = append(out, s)
